@@ -29,7 +29,7 @@ func (w *World) Serve(q *Req) {
 	q.rawCancel = cancel
 	q.substituted = false
 	q.StartStamp = sched.Stamp()
-	q.logSink.b = q.logSink.b[:0]
+	q.logSink.reset()
 	q.Local.Ref = q
 	q.Local.Init(q.PlannedCancel, func() {
 		q.AsyncCancelAt = q.Local.CIdx
@@ -214,9 +214,9 @@ func (q *Req) Outcome() string {
 		sb.WriteString(e.String())
 	}
 	sb.WriteString("|esc=" + q.Escaped)
-	if len(q.logSink.b) > 0 {
+	if lt := q.logSink.text(); len(lt) > 0 {
 		sb.WriteString("|log=")
-		sb.WriteString(normaliseLog(string(q.logSink.b)))
+		sb.WriteString(normaliseLog(lt))
 	}
 	return sb.String()
 }
